@@ -18,6 +18,13 @@ impl Comment {
             buf.add_one("\n", "");
             return;
         }
+        if buf.format().is_compressed() {
+            // There is no indentation to adjust to, and no line breaks.
+            buf.add_str("/*");
+            buf.add_str(&self.0.replace('\n', " "));
+            buf.add_str("*/");
+            return;
+        }
         let indent = buf.indent_level();
         let existing = self
             .0
